@@ -2,6 +2,7 @@ use crate::driver::Meta;
 use crate::proto::Ctx;
 
 pub mod boolops;
+pub mod c15x;
 
 macro_rules! registry {
     ($($id:literal => $m:ident),* $(,)?) => {
